@@ -49,6 +49,9 @@ pub struct Pred {
     pub abort_risk: bool,
     /// even under the relaxed oracle the step has to end in a panic (a rejected wrong-typed value)
     pub must_panic: bool,
+    /// number of storage requests (MemBuilder::build / build_with_size) on the simulated back end
+    /// this step must make: one per vector instance created, none otherwise
+    pub builds: u32,
     pub relax: Relax,
     /// number of Clone invocations the model expects in this step
     pub clones: u64,
@@ -218,12 +221,13 @@ impl Model {
         r.sink = st.sink;
         r.form = st.form;
         r.script = st.script.clone();
-        let mut p = Pred { r, ev: Vec::new(), always_relaxed: false, relax_kind: 5, abort_risk: false, must_panic: false, relax: Relax::default(), clones: 0, nontrivial: false };
+        let mut p = Pred { r, ev: Vec::new(), always_relaxed: false, relax_kind: 5, abort_risk: false, must_panic: false, builds: 0, relax: Relax::default(), clones: 0, nontrivial: false };
 
         if st.op == Op::Nop || (st.op != Op::New && !self.exists(slot)) {
             p.r.op = Op::Nop;
             return p;
         }
+        let sim = |m: &Model, slot: usize| (m.info.be_of(slot).kind == BeKind::Sim) as u32;
         match st.op {
             Op::New => self.op_new(st, &mut p),
             Op::DropVec => {
@@ -335,6 +339,14 @@ impl Model {
                 p.r.op = Op::Nop;
             }
         }
+        p.builds = match p.r.op {
+            Op::New => sim(self, p.r.slot),
+            Op::CloneVec | Op::CloneEmpty => sim(self, p.r.slot),
+            Op::CloneEmptyIn => sim(self, p.r.other),
+            Op::TypeProbe if p.r.kind == TP_PUSH_HANDLE => 1,
+            Op::RawTrip if p.r.form >= 2 => 1 + self.info.cloneable as u32,
+            _ => 0,
+        };
         p
     }
 
